@@ -34,8 +34,8 @@ def _val(v, form):
     return puan.Bounds(v, v)
 
 
-QUICK = ["abc/explicit", "abt/explicit", "abc/generated", "abc/root", "diamond/explicit",
-         "diamond/generated", "fixed/abc", "abk1k0/explicit", "mix3/abtn/explicit", "wide/1"]
+QUICK = ["ab/explicit", "at/explicit", "abc/explicit", "abt/explicit", "abc/generated", "abc/root", "diamond/explicit",
+         "diamond/generated", "fixed/abc", "abk1k0/explicit", "mix3/abtn/explicit", "wide/1", "illdef/x"]
 QUICK_OVR = [("ovr2", "abc/explicit"), ("ovr1", "diamond/explicit"), ("ovr1", "abc/generated")]
 THOROUGH = QUICK + ["abct/explicit", "abcdt/explicit", "abu/explicit/w3", "abt/explicit/w3", "d3/abc/explicit", "d3/abt/generated", "fixed/abt",
                     "abtn/explicit", "abt/generated", "abt/root"]
@@ -145,6 +145,25 @@ def check_model(m, acc, mode, fam, k, only_alpha=None, only_ovr=None, only_form=
                 one(m, alpha, ovr, form, idof, acc, fam, k, mode, oi, tvals)
     if len(tvals) > 1:
         acc.nontriv(m)
+    if mode == "plain" and only_alpha is None and fam in ("ab/explicit", "at/explicit", "abc/explicit", "abt/explicit") and k % 3 == 0:
+        # one leaf OUTSIDE its declared bounds (variable.evaluate documents that such values are taken as given), the others over their range
+        base = list(ref.assignments_dom(leaves, 4))
+        for i, (lo_, hi_) in leaves.items():
+            for out_v in (lo_ - 1, hi_ + 1, hi_ + 2):
+                for alpha in base[:: max(1, len(base) // 6)]:
+                    al = dict(alpha)
+                    al[i] = out_v
+                    want = ref.truth(m, al)
+                    acc.n("transitions")
+                    try:
+                        got = bind(m)[0].evaluate({k_: _val(v_, FORMS[(out_v + len(k_)) % 4]) for k_, v_ in al.items()}).as_tuple()
+                    except BaseException as e:
+                        acc.violation(None, {"fam": fam, "k": k, "ast": m, "mode": "oob"}, {"what": "evaluate raised on an out-of-bounds leaf value", "exc": repr(e), "model": show(m), "alpha": al})
+                        break
+                    if tuple(map(int, got)) != (want, want):
+                        acc.violation(None, {"fam": fam, "k": k, "ast": m, "mode": "oob"},
+                                      {"what": "a leaf value outside its declared bounds is not taken as given", "model": show(m), "assignment": al, "expected": want, "got": tuple(map(int, got))})
+                        break
     if mode == "plain" and only_alpha is None:
         # the SAME object evaluated on every assignment in sequence, forwards and backwards (neighbouring assignments differ in one value, e.g.
         # -1 / -2): whatever the object remembers between calls must not change the answers
@@ -219,7 +238,7 @@ def replay(case, acc):
     if case.get("mode") == "leaf":
         leaf_models(acc)
         return
-    if case.get("mode") == "shared":
+    if case.get("mode") in ("shared", "oob"):
         check_model(tuplify(case["ast"]), acc, "plain", case["fam"], case["k"])
         return
     m = tuplify(case["ast"])
